@@ -95,9 +95,11 @@ func runC03(s *scenario, seed uint64) {
 		runs = 1500 // as many as fit into the wall-time budget
 	}
 	if s.only < 0 {
+		c03Sizes(s, seed, false)
+		c03Sizes(s, seed, true)
+		c03Last(s, seed)
 		c03Lag(s, "fill")
 		c03Lag(s, "oversize")
-		c03Last(s, seed)
 	}
 	for i := 0; i < runs; i++ {
 		derived := master.U64()
